@@ -304,6 +304,11 @@ def encoding(
             logger.debug("gamma %s", gamma)
             logger.debug("vSums %s", vSums[index])
             logger.debug("fSums %s", fSums[index])
+        if vSums[index] and not fSums[index]:
+            # No world falsifies this conditional while some world verifies it:
+            # it is accepted whatever the parameters are, so it contributes no
+            # constraint (the minimum over an empty set cannot be encoded).
+            continue
         mv, mf = freshVars(index)
         vMin = minima_encoding(mv, vSums[index])
         fMin = minima_encoding(mf, fSums[index])
